@@ -6,22 +6,47 @@ root = reference root; V linear in n; critical constants) on every state, edge l
 Charles ratios, monotone volume along isotherms and isobars, approach to the ideal gas) on every
 lattice edge.  Reference: exact-arithmetic bisection of the cubic, the law of corresponding states,
 the second virial coefficient (pmc/ref/eos_ref.py).
+
+Added after the seeded-change rounds (notes/C20.md, "Strengthening after seeded changes"):
+* object histories - two or three vanDerWaalsEOS objects made by every construction route (a, b / from_critical /
+  from_dict / to_dict-from_dict / JSON encoder-decoder / copy / deepcopy) with the same or different parameters, an attribute edit (or an
+  edit of a returned dict) in between, every object queried before and after against a model in which each object
+  owns its a, b;
+* one object swept over the whole lattice twice (second pass reversed);
+* calling conventions - positional arguments, every subset of arguments left to its default, integer-typed
+  (int, numpy int64 / int32) T, P, V, n, Tc, Pc, a, and gas_phase given as 0 / 1 / numpy bool.
 """
+import copy
+import functools
 import itertools
+import json
 import math
+
+import numpy as np
 
 from pmc.ref import eos_ref as E
 
 ID = 'C20'
 RULE = ('every (gas, T, P, n, root) and (gas, T, V, n) state of the lattice, every isotherm / isobar edge between '
-        'adjacent lattice points, every (Tc, Pc) pair; a state is non-trivial when it is a van der Waals state '
-        'with three real roots, a liquid-root state, a state generated from V, or a critical-point construction')
+        'adjacent lattice points, every (Tc, Pc) pair; every object history first-construction x second-construction '
+        'x edit x third-construction over the construction routes {a,b / from_critical / from_dict} x {same, other '
+        'parameters} + {to_dict-from_dict, JSON round trip, copy, deepcopy}, edits {a, b of either object x 2 factors, the dict '
+        'returned by to_dict}; every calling convention {keyword, positional, each subset of arguments omitted, '
+        'each subset of integer-valued arguments given as int / numpy int, gas_phase as 0/1/numpy bool} of every '
+        'getter; a state is non-trivial when it is a van der Waals state '
+        'with three real roots, a liquid-root state, a state generated from V, a critical-point construction, '
+        'an object history or a non-keyword calling convention')
 ASSUMPTIONS = ['lattices of T, P, n, V/b, (a, b), (Tc, Pc) as stated in bounds',
                'substitute-back in P is judged against the size of the two terms RT/(Vm-b) and a/Vm^2 whose '
                'difference it is (DESIGN 3.4, identities); all other substitute-backs at 1e-8 relative',
                'a (T, P) state whose cubic has a nearly double root (margin < 1e-6) is exempt from the root-count '
                'clauses only',
-               'gas constant: the library value R(J/mol/K); its accuracy is property C12']
+               'gas constant: the library value R(J/mol/K); its accuracy is property C12',
+               'object histories: length 3 constructions + 1 edit (the third construction repeats the first or the '
+               'second in the quick tier), gas pairs and query states as stated in bounds; every object is modelled '
+               'as the sole owner of its a, b',
+               'integer-typed arguments: only integer-valued lattice values are converted (int, numpy.int64, '
+               'numpy.int32)']
 EXPLANATION = ('every state is evaluated on the real EOS objects; expected volumes come from an exact-arithmetic '
                'bisection of the van der Waals cubic, pressures from the reduced equation of state')
 
@@ -39,13 +64,36 @@ TC = [5.0, 33.0, 304.0, 647.0, 1000.0]
 PC = [1.0, 13.0, 74.0, 221.0, 300.0]
 TR = [0.7, 0.9, 1.0, 1.5]
 VRED = [0.5, 0.8, 0.99, 1.0, 1.01, 2.0, 10.0]
+# object histories
+H_PAIRS_Q = [('CO2', 'H2O'), ('He', 'SF6'), ('N2', 'NH3'), ('C3H8', 'H2')]                  # (base, other)
+H_PAIRS_T = [('He', 'H2'), ('H2', 'N2'), ('N2', 'CO2'), ('CO2', 'H2O'), ('H2O', 'NH3'), ('NH3', 'C3H8'),
+             ('C3H8', 'SF6'), ('SF6', 'He')]
+H_FIRST = ['init', 'critical', 'dict']
+H_DERIVE = ['roundtrip', 'json', 'copy', 'deepcopy']
+H_STATES = [(150.0, 1.0, 1e3), (700.0, 30.0, 1e-3)]          # (T / K, P / bar, n / mol) asked of every object
+H_FACTORS = [0.9, 1.25]                                      # attribute edits (stay inside the (a, b) box)
+CLS_VDW = "<class 'pmutt.eos.vanDerWaalsEOS'>"
+# calling conventions: integer-valued states
+C_T_Q, C_T_T = [150, 700], [50, 150, 700, 3000]
+C_P = [1, 30, 1000]
+C_NV = [(1, 1000), (1000, 1)]                                # (n / mol, V / m3): Vm = 1000 and 1e-3 m3/mol
+C_TYPES = ['int', 'np.int64', 'np.int32']
+C_FLAGS = ['int', 'np.bool_']
 
 PLANNED_TAGS = ['ideal:from-TPn', 'ideal:from-TVn', 'ideal:defaults', 'ideal:edge-P', 'ideal:edge-T',
                 'vdw:three-roots', 'vdw:one-root', 'vdw:gas-root', 'vdw:liquid-root', 'vdw:supercritical',
                 'vdw:subcritical', 'vdw:from-V:largest', 'vdw:from-V:smallest', 'vdw:from-V:middle',
                 'vdw:from-V:negative-P', 'vdw:edge-P', 'vdw:edge-T', 'vdw:limit', 'critical:from_critical',
                 'critical:from-ab', 'critical:reduced:subcritical', 'critical:reduced:critical',
-                'critical:reduced:supercritical', 'vdw:defaults']
+                'critical:reduced:supercritical', 'vdw:defaults',
+                'history:ctor:init', 'history:ctor:critical', 'history:ctor:dict', 'history:ctor:roundtrip', 'history:ctor:json',
+                'history:ctor:copy', 'history:ctor:deepcopy', 'history:same-construction-twice',
+                'history:edit:set-a', 'history:edit:set-b', 'history:edit:returned-dict',
+                'history:query:three-roots', 'history:query:one-root', 'history:query:after-own-edit',
+                'history:query:after-edit-of-another', 'history:query:from_critical-unedited',
+                'sweep:ideal', 'sweep:vdw', 'calls:positional', 'calls:omitted', 'calls:typed:int',
+                'calls:typed:np.int64', 'calls:typed:np.int32', 'calls:flag:int', 'calls:flag:np.bool_',
+                'calls:ctor:typed', 'calls:ctor:positional', 'calls:ctor:int-a']
 
 
 def _lat(tier):
@@ -66,7 +114,24 @@ def gases(tier):
 def bounds(tier):
     T, P, N = _lat(tier)
     return dict(T=T, P_bar=P, n=N, gases=sorted(gases(tier)), roots=['gas', 'liquid'], V_over_b=VR,
-                from_V_reduced=RED_FROM_V, V_ideal_m3=V_IDEAL, P_limit_bar=P_LIMIT, Tc=TC, Pc_bar=PC, T_reduced=TR, V_reduced=VRED)
+                from_V_reduced=RED_FROM_V, V_ideal_m3=V_IDEAL, P_limit_bar=P_LIMIT, Tc=TC, Pc_bar=PC, T_reduced=TR, V_reduced=VRED,
+                history=dict(gas_pairs=_h_pairs(tier), first=H_FIRST, second='{a,b / from_critical / from_dict} x {same, other '
+                             'parameters} + {to_dict-from_dict, JSON round trip, copy, deepcopy} of the first',
+                             edit='{a, b} x {first, second object} x factors %s + {edit the dict returned by to_dict of '
+                                  'the first, second object}' % H_FACTORS,
+                             third='repeat of the first / of the second construction' if tier == 'quick' else
+                                   'the 10 second constructions + {to_dict-from_dict, JSON round trip, copy, deepcopy} of the second',
+                             queries='every object before and after every step', query_states_T_Pbar_n=H_STATES),
+                sweep='one object per gas (and one ideal-gas object) over the whole (T, P, n) lattice, then again in '
+                      'reverse order with the roots asked in the other order',
+                calling_conventions=dict(T=C_T_Q if tier == 'quick' else C_T_T, P_bar=C_P, n_V=C_NV, int_types=C_TYPES,
+                                         gas_phase_as=C_FLAGS, styles=['keyword', 'positional', 'every subset of '
+                                                                       'arguments omitted', 'every subset of numbers '
+                                                                       'integer-typed']))
+
+
+def _h_pairs(tier):
+    return H_PAIRS_Q if tier == 'quick' else H_PAIRS_T
 
 
 def shards(tier):
@@ -75,6 +140,7 @@ def shards(tier):
     out += [dict(kind='limit')]
     out += [dict(kind='critical', Tc=tc) for tc in TC]
     out += [dict(kind='reduced'), dict(kind='defaults')]
+    out += [dict(kind='history', base=g1, other=g2, first=f) for g1, g2 in _h_pairs(tier) for f in H_FIRST]
     return out
 
 
@@ -371,9 +437,399 @@ def _k_defaults(case, ctx):
                   rtol=1e-14)
 
 
+# ------------------------------------------------------------------ independent model of every getter
+@functools.lru_cache(maxsize=None)
+def _roots(a, b, rt, p_pa):
+    """Exact-arithmetic roots of the cubic (harness-side memo of the reference; read-only)."""
+    roots, margin = E.vdw_roots(a, b, rt, p_pa)
+    return tuple(roots), margin
+
+
+def _ref_call(eos, a, b, R, getter, kw):
+    """Reference value of getter(**kw) with the documented defaults filled in.
+
+    Returns (expected, rtol, atol) or None when the number of real roots is not decidable (nearly double root).
+    Units as documented: T / K, P / bar, V / m3, n / mol."""
+    T = float(kw.get('T', 298.15))
+    P = float(kw.get('P', 1.0))
+    V = float(kw.get('V', R * 298.15 / 1e5))
+    n = float(kw.get('n', 1.0))
+    gp = bool(kw.get('gas_phase', True))
+    if eos == 'ideal':
+        if getter == 'get_V':
+            return n * R * T / (P * 1e5), 1e-12, 0.0
+        if getter == 'get_P':
+            return n * R * T / V / 1e5, 1e-12, 0.0
+        if getter == 'get_T':
+            return P * 1e5 * V / (n * R), 1e-12, 0.0
+        if getter == 'get_n':
+            return P * 1e5 * V / (R * T), 1e-12, 0.0
+        raise ValueError(getter)
+    if getter in ('get_Vm', 'get_V', 'get_n'):
+        roots, margin = _roots(a, b, R * T, P * 1e5)
+        if margin < 1e-6:
+            return None
+        vm = roots[-1] if gp else roots[0]
+        if getter == 'get_Vm':
+            return vm, 1e-8, 0.0
+        if getter == 'get_V':
+            return n * vm, 1e-8, 0.0
+        return V / vm, 1e-8, 0.0
+    if getter == 'get_P':
+        vm = V / n
+        return (R * T / (vm - b) - a / vm ** 2) / 1e5, 0.0, 1e-12 * _terms(a, b, R, T, vm) / 1e5
+    if getter == 'get_T':
+        vm = V / n
+        return (P * 1e5 + a / vm ** 2) * (vm - b) / R, 1e-12, 0.0
+    if getter == 'get_Vc':
+        return 3.0 * n * b, 1e-12, 0.0
+    if getter == 'get_Tc':
+        return 8.0 * a / (27.0 * b * R), 1e-12, 0.0
+    if getter == 'get_Pc':
+        return a / (27.0 * b * b) / 1e5, 1e-12, 0.0
+    raise ValueError(getter)
+
+
+def _crit_ab(tc, pc, R):
+    return 27.0 * (R * tc) ** 2 / (64.0 * pc * 1e5), R * tc / (8.0 * pc * 1e5)
+
+
+def _crit_of(a, b, R):
+    """A plain (Tc / K, Pc / bar) pair close to the critical point of (a, b) - six significant digits."""
+    return float('%.6g' % (8.0 * a / (27.0 * b * R))), float('%.6g' % (a / (27.0 * b * b) / 1e5))
+
+
+# ------------------------------------------------------------------ object histories
+def _h_query(ctx, case, objs, model, k, R):
+    """Ask object k everything; the expected answers come from the model's a, b of object k alone.
+
+    The clauses are ordered from cause to consequence and a query stops at its first failing clause, so that a
+    shared / stale parameter is reported once (as such) and not once more per getter."""
+    o, m = objs[k], model[k]
+    a, b = m['a'], m['b']
+    sig = dict(eos='vdW', what='object history', made_by=m['by'])
+    if m['edited'] == 'attribute':
+        ctx.tag('history:query:after-own-edit')
+    if any(x['edited'] != 'no' for i, x in enumerate(model) if i != k):
+        ctx.tag('history:query:after-edit-of-another')
+    ctx.evals(4)
+    if not ctx.close('object history: a, b of an object are the values it was built with / last given', [o.a, o.b],
+                     [a, b], dict(sig, getter='a, b'), case, rtol=1e-12):
+        return
+    ns = [n for _, _, n in H_STATES]
+    if not ctx.close('object history: Tc = 8a/(27 b R), Pc = a/(27 b^2), Vc = 3 n b of the object\'s own a, b',
+                     [o.get_Tc(), o.get_Pc()] + [o.get_Vc(n=n) for n in ns],
+                     [_ref_call('vdW', a, b, R, 'get_Tc', {})[0], _ref_call('vdW', a, b, R, 'get_Pc', {})[0]]
+                     + [3.0 * n * b for n in ns], dict(sig, getter='get_Tc/get_Pc/get_Vc'), case, rtol=1e-12):
+        return
+    if m['crit'] is not None:
+        ctx.tag('history:query:from_critical-unedited')
+        if not ctx.close('object history: an unedited object from from_critical(Tc, Pc) reproduces Tc, Pc whatever was '
+                         'done with other objects', [o.get_Tc(), o.get_Pc()], m['crit'],
+                         dict(sig, getter='get_Tc/get_Pc'), case, rtol=1e-8):
+            return
+    for T, P, n in H_STATES:
+        roots, margin = _roots(a, b, R * T, P * 1e5)
+        if margin < 1e-6:
+            ctx.tag('history:query:near-spinodal')
+            continue
+        ctx.tag('history:query:three-roots' if len(roots) == 3 else 'history:query:one-root')
+        g, liq = roots[-1], roots[0]
+        ctx.evals(10)
+        if not ctx.close('object history: selected roots are the roots of the cubic of the object\'s own a, b',
+                         [o.get_Vm(T=T, P=P, gas_phase=True), o.get_Vm(T=T, P=P, gas_phase=False),
+                          o.get_V(T=T, P=P, n=n, gas_phase=True), o.get_V(T=T, P=P, n=n, gas_phase=False)],
+                         [g, liq, n * g, n * liq], dict(sig, getter='get_Vm/get_V'), case, rtol=1e-8):
+            return
+        if not ctx.close('object history: n(V, P, T) = n on both roots of the object\'s own a, b',
+                         [o.get_n(V=n * g, P=P, T=T, gas_phase=True), o.get_n(V=n * liq, P=P, T=T, gas_phase=False)],
+                         [n, n], dict(sig, getter='get_n'), case, rtol=1e-8):
+            return
+        for vm in (g, liq):
+            if not ctx.close('object history: P(T, V, n) = P on both roots of the object\'s own a, b',
+                             o.get_P(T=T, V=n * vm, n=n) * 1e5, P * 1e5, dict(sig, getter='get_P'), case, rtol=0.0,
+                             atol=1e-10 * _terms(a, b, R, T, vm), scale=1.0):
+                return
+        if not ctx.close('object history: T(V, P, n) = T on both roots of the object\'s own a, b',
+                         [o.get_T(V=n * g, P=P, n=n), o.get_T(V=n * liq, P=P, n=n)], [T, T],
+                         dict(sig, getter='get_T'), case, rtol=1e-8):
+            return
+
+
+def _k_history(case, ctx):
+    """A history of constructions, edits and queries on several vanDerWaalsEOS objects in one process."""
+    _, VdW = _eos()
+    R = _R()
+    objs, model = [], []
+    made = []
+    for op in case['ops']:
+        ctx.trans()
+        kind = op[0]
+        if kind in ('new', 'derive'):
+            how = op[1]
+            sig = dict(eos='vdW', what='object history', made_by=how)
+            ctx.tag('history:ctor:' + how)
+            if kind == 'new':
+                x, y = op[2], op[3]
+                if [how, x, y] in made:
+                    ctx.tag('history:same-construction-twice')
+                made.append([how, x, y])
+                if how == 'init':
+                    obj, m = VdW(a=x, b=y), dict(a=x, b=y, crit=None)
+                elif how == 'critical':
+                    obj = VdW.from_critical(Tc=x, Pc=y)
+                    a, b = _crit_ab(x, y, R)
+                    m = dict(a=a, b=b, crit=[x, y])
+                elif how == 'dict':
+                    d = {'class': CLS_VDW, 'a': x, 'b': y}
+                    before = copy.deepcopy(d)
+                    obj, m = VdW.from_dict(d), dict(a=x, b=y, crit=None)
+                    ctx.true('object history: the dict given to from_dict is left as it was', d == before, sig, case,
+                             d, before)
+                    d['a'], d['b'] = 2.0 * x, 2.0 * y            # the caller goes on using its dict
+                else:
+                    raise ValueError(how)
+            else:
+                src = op[2]
+                if how == 'roundtrip':
+                    obj = VdW.from_dict(objs[src].to_dict())
+                elif how == 'json':
+                    from pmutt.io.json import pmuttEncoder, json_to_pmutt
+                    obj = json.loads(json.dumps(objs[src], cls=pmuttEncoder), object_hook=json_to_pmutt)
+                elif how == 'copy':
+                    obj = copy.copy(objs[src])
+                elif how == 'deepcopy':
+                    obj = copy.deepcopy(objs[src])
+                else:
+                    raise ValueError(how)
+                crit = model[src]['crit']
+                m = dict(a=model[src]['a'], b=model[src]['b'], crit=None if crit is None else list(crit))
+            m.update(by=how, edited='no')
+            ctx.true('object history: every construction returns a new object', all(obj is not o for o in objs), sig,
+                     case, [i for i, o in enumerate(objs) if o is obj], [])
+            objs.append(obj)
+            model.append(m)
+        elif kind == 'set':
+            _, k, attr, f = op
+            ctx.tag('history:edit:set-' + attr)
+            v = model[k][attr] * f
+            setattr(objs[k], attr, v)
+            model[k][attr] = v
+            model[k]['crit'] = None
+            model[k]['edited'] = 'attribute'
+        elif kind == 'edit-dict':
+            k = op[1]
+            ctx.tag('history:edit:returned-dict')
+            d = objs[k].to_dict()
+            for key in ('a', 'b'):
+                if key in d:
+                    d[key] = 3.0 * d[key]
+            d.pop('class', None)
+            if model[k]['edited'] == 'no':
+                model[k]['edited'] = 'returned dict'
+        elif kind == 'query':
+            _h_query(ctx, case, objs, model, op[1], R)
+        else:
+            raise ValueError(kind)
+
+
+def _h_news(p, R):
+    a, b = p
+    tc, pc = _crit_of(a, b, R)
+    return {'init': ['new', 'init', a, b], 'critical': ['new', 'critical', tc, pc], 'dict': ['new', 'dict', a, b]}
+
+
+def _histories(tier, base, other, first):
+    """Op lists: first construction, second construction, one edit, third construction, queries in between."""
+    R = _R()
+    nb, no = _h_news(base, R), _h_news(other, R)
+    seconds = [nb[h] for h in H_FIRST] + [no[h] for h in H_FIRST] + [['derive', h, 0] for h in H_DERIVE]
+    edits = [['set', k, attr, f] for k in (0, 1) for attr in ('a', 'b') for f in H_FACTORS]
+    edits += [['edit-dict', k] for k in (0, 1)]
+    q = lambda *ks: [['query', k] for k in ks]
+    for second in seconds:
+        if tier == 'quick':
+            thirds = [nb[first], second if second[0] == 'new' else ['derive', second[1], 1]]
+        else:
+            thirds = seconds + [['derive', h, 1] for h in H_DERIVE]
+        thirds = [t for i, t in enumerate(thirds) if t not in thirds[:i]]
+        for edit in edits:
+            for third in thirds:
+                yield [nb[first]] + q(0) + [second] + q(0, 1) + [edit] + q(0, 1) + [third] + q(2, 0, 1)
+
+
+# ------------------------------------------------------------------ one object over the whole lattice, twice
+def _k_sweep(case, ctx):
+    Ideal, VdW = _eos()
+    R = _R()
+    pts = [(t, p) for t in case['T'] for p in case['P']]
+    ns = list(case['n'])
+    if case['eos'] == 'ideal':
+        ctx.tag('sweep:ideal')
+        eos = Ideal()
+        a = b = None
+    else:
+        ctx.tag('sweep:vdw')
+        a, b = case['a'], case['b']
+        eos = VdW(a=a, b=b)
+    for label, seq, nseq, sel in (('first', pts, ns, (True, False)), ('second, reversed', pts[::-1], ns[::-1], (False, True))):
+        sig = dict(eos=case['eos'], what='one object over the lattice', sweep=label)
+        for T, P in seq:
+            ctx.trans()
+            if case['eos'] == 'ideal':
+                for n in nseq:
+                    V = n * R * T / (P * 1e5)
+                    ctx.evals(4)
+                    ctx.close('one ideal-gas object over the whole lattice, twice: every getter returns the state',
+                              [eos.get_V(T=T, P=P, n=n), eos.get_P(T=T, V=V, n=n), eos.get_T(V=V, P=P, n=n),
+                               eos.get_n(V=V, P=P, T=T)], [V, P, T, n], sig, case, rtol=1e-12)
+                continue
+            roots, margin = _roots(a, b, R * T, P * 1e5)
+            if margin < 1e-6:
+                continue
+            for gp in sel:
+                vm = roots[-1] if gp else roots[0]
+                s2 = dict(sig, root='gas' if gp else 'liquid')
+                ctx.evals(1 + 4 * len(nseq))
+                ctx.close('one van der Waals object over the whole lattice, twice: selected root = reference root',
+                          [eos.get_Vm(T=T, P=P, gas_phase=gp)] + [eos.get_V(T=T, P=P, n=n, gas_phase=gp) for n in nseq],
+                          [vm] + [n * vm for n in nseq], dict(s2, getter='get_Vm/get_V'), case, rtol=1e-8)
+                ctx.close('one van der Waals object over the whole lattice, twice: T and n from the reference volume',
+                          [eos.get_T(V=n * vm, P=P, n=n) for n in nseq]
+                          + [eos.get_n(V=n * vm, P=P, T=T, gas_phase=gp) for n in nseq],
+                          [T] * len(nseq) + list(nseq), dict(s2, getter='get_T/get_n'), case, rtol=1e-8)
+                ctx.close('one van der Waals object over the whole lattice, twice: P from the reference volume',
+                          [eos.get_P(T=T, V=n * vm, n=n) * 1e5 for n in nseq], [P * 1e5] * len(nseq),
+                          dict(s2, getter='get_P'), case, rtol=0.0,
+                          atol=1e-10 * _terms(a, b, R, T, vm), scale=1.0)
+
+
+# ------------------------------------------------------------------ calling conventions
+_ORDER = {'ideal': {'get_V': ['T', 'P', 'n'], 'get_P': ['T', 'V', 'n'], 'get_T': ['V', 'P', 'n'],
+                    'get_n': ['V', 'P', 'T']},
+          'vdW': {'get_Vm': ['T', 'P', 'gas_phase'], 'get_V': ['T', 'P', 'n', 'gas_phase'], 'get_P': ['T', 'V', 'n'],
+                  'get_T': ['V', 'P', 'n'], 'get_n': ['V', 'P', 'T', 'gas_phase'], 'get_Vc': ['n']}}
+
+
+def _conv(typ, v):
+    if typ == 'int':
+        return int(v)
+    if typ == 'np.int64':
+        return np.int64(v)
+    if typ == 'np.int32':
+        return np.int32(v)
+    if typ == 'np.bool_':
+        return np.bool_(v)
+    raise ValueError(typ)
+
+
+def _subsets(names):
+    for r in range(1, len(names) + 1):
+        for c in itertools.combinations(names, r):
+            yield c
+
+
+def _k_calls(case, ctx):
+    """One integer-valued state; every getter called in every convention, each against the reference."""
+    Ideal, VdW = _eos()
+    R = _R()
+    kind = case['eos']
+    a, b = case.get('a'), case.get('b')
+    eos = Ideal() if kind == 'ideal' else VdW(a=a, b=b)
+    vals = dict(T=float(case['T']), P=float(case['P']), n=float(case['n']), V=float(case['V']))
+
+    def one(getter, kw, call, style):
+        ref = _ref_call(kind, a, b, R, getter, kw)
+        if ref is None:
+            return
+        exp, rtol, atol = ref
+        ctx.evals()
+        ctx.close('calling conventions: a getter returns the reference value however its arguments are given',
+                  call(), exp, dict(eos=kind, what='calling convention', style=style, getter=getter), case,
+                  rtol=rtol, atol=atol, scale=None if rtol else 1.0)
+
+    for getter, order in _ORDER[kind].items():
+        fn = getattr(eos, getter)
+        num = [k for k in order if k != 'gas_phase']
+        for gp in ((True, False) if 'gas_phase' in order else (None,)):
+            kw = {k: vals[k] for k in num}
+            if gp is not None:
+                kw['gas_phase'] = gp
+            one(getter, kw, lambda: fn(**kw), 'keyword')
+            ctx.tag('calls:positional')
+            one(getter, kw, lambda: fn(*[kw[k] for k in order]), 'positional')
+            for typ in C_TYPES:
+                for sub in _subsets(num):
+                    ctx.tag('calls:typed:' + typ)
+                    kt = dict(kw)
+                    for k in sub:
+                        kt[k] = _conv(typ, kw[k])
+                    one(getter, kw, lambda: fn(**kt), typ)
+            if gp is not None:
+                for typ in C_FLAGS:
+                    ctx.tag('calls:flag:' + typ)
+                    kt = dict(kw, gas_phase=_conv(typ, gp))
+                    one(getter, kw, lambda: fn(**kt), 'gas_phase as ' + typ)
+        # arguments left to their defaults (T0, P0, V0, 1 mol, gas root)
+        full = {k: vals[k] for k in num}
+        if 'gas_phase' in order:
+            full['gas_phase'] = False
+        for sub in _subsets(order):
+            ctx.tag('calls:omitted')
+            kw = {k: v for k, v in full.items() if k not in sub}
+            one(getter, kw, lambda: fn(**kw), 'omitted')
+
+
+def _k_ctor_calls(case, ctx):
+    """Constructors called positionally / with integer-typed numbers."""
+    _, VdW = _eos()
+    R = _R()
+    sig = dict(eos='vdW', what='calling convention', getter='constructor')
+
+    def judge(obj, a, b, crit, style):
+        ctx.evals(3)
+        s = dict(sig, style=style)
+        ctx.close('calling conventions: the constructed object has the reference a, b', [obj.a, obj.b], [a, b], s,
+                  case, rtol=1e-12)
+        ctx.close('calling conventions: the constructed object has the reference critical constants',
+                  [obj.get_Tc(), obj.get_Pc(), obj.get_Vc(n=2)],
+                  [8.0 * a / (27.0 * b * R), a / (27.0 * b * b) / 1e5, 6.0 * b], s, case, rtol=1e-12)
+        if crit:
+            ctx.close('calling conventions: from_critical(Tc, Pc) reproduces Tc, Pc', [obj.get_Tc(), obj.get_Pc()],
+                      crit, s, case, rtol=1e-8)
+        T, P = 298.15, 1.0
+        roots, margin = _roots(float(a), float(b), R * T, P * 1e5)
+        if margin >= 1e-6:
+            ctx.close('calling conventions: the constructed object selects the reference roots',
+                      [obj.get_Vm(T=T, P=P, gas_phase=True), obj.get_Vm(T=T, P=P, gas_phase=False)],
+                      [roots[-1], roots[0]], s, case, rtol=1e-8)
+
+    if case['how'] == 'critical':
+        tc, pc = case['Tc'], case['Pc']
+        a, b = _crit_ab(tc, pc, R)
+        ctx.tag('calls:ctor:positional')
+        judge(VdW.from_critical(tc, pc), a, b, [tc, pc], 'positional')
+        for typ in C_TYPES:
+            for sub in _subsets(['Tc', 'Pc']):
+                ctx.tag('calls:ctor:typed')
+                kw = dict(Tc=tc, Pc=pc)
+                for k in sub:
+                    kw[k] = _conv(typ, kw[k])
+                judge(VdW.from_critical(**kw), a, b, [tc, pc], typ)
+    else:
+        a, b = case['a'], case['b']
+        ctx.tag('calls:ctor:positional')
+        judge(VdW(a, b), a, b, None, 'positional')
+        if float(a) == int(a):
+            for typ in C_TYPES:
+                ctx.tag('calls:ctor:int-a')
+                judge(VdW(a=_conv(typ, a), b=b), a, b, None, typ)
+
+
 _KINDS = {'ideal': _k_ideal, 'ideal-edge': _k_ideal_edge, 'vdw': _k_vdw, 'vdw-from-v': _k_vdw_from_v,
           'vdw-edge': _k_vdw_edge, 'limit': _k_limit, 'critical': _k_critical, 'critical-ab': _k_critical_ab,
-          'reduced': _k_reduced, 'defaults': _k_defaults}
+          'reduced': _k_reduced, 'defaults': _k_defaults, 'history': _k_history, 'sweep': _k_sweep, 'calls': _k_calls,
+          'ctor-calls': _k_ctor_calls}
 
 
 def check_case(case, ctx):
@@ -400,7 +856,10 @@ def run_shard(shard, ctx):
             for t, n in itertools.product(T, N):
                 for p1, p2 in zip(P, P[1:]):
                     _run(ctx, dict(kind='ideal-edge', eos='ideal', axis='P', T=t, P=[p1, p2], n=n), False)
+            for t, p, (n, v) in itertools.product(C_T_Q if tier == 'quick' else C_T_T, C_P, C_NV):
+                _run(ctx, dict(kind='calls', eos='ideal', T=t, P=p, n=n, V=v))
         else:
+            _run(ctx, dict(kind='sweep', eos='ideal', T=T, P=P, n=N))
             for t, v, n in itertools.product(T, V_IDEAL, N):
                 _run(ctx, dict(kind='ideal', eos='ideal', start='TVn', T=t, V=v, n=n))
             for p, n in itertools.product(P, N):
@@ -423,6 +882,10 @@ def run_shard(shard, ctx):
             for t1, t2 in zip(T, T[1:]):
                 _run(ctx, dict(kind='vdw-edge', gas=g, a=a, b=b, axis='T', P=p, T=[t1, t2]))
         _run(ctx, dict(kind='critical-ab', gas=g, a=a, b=b))
+        _run(ctx, dict(kind='sweep', eos='vdW', gas=g, a=a, b=b, T=T, P=P, n=N))
+        for t, p, (n, v) in itertools.product(C_T_Q if tier == 'quick' else C_T_T, C_P, C_NV):
+            _run(ctx, dict(kind='calls', eos='vdW', gas=g, a=a, b=b, T=t, P=p, n=n, V=v))
+        _run(ctx, dict(kind='ctor-calls', how='init', gas=g, a=a, b=b))
     elif kind == 'limit':
         for g, (a, b) in gases(tier).items():
             for t in T:
@@ -430,6 +893,7 @@ def run_shard(shard, ctx):
     elif kind == 'critical':
         for pc in PC:
             _run(ctx, dict(kind='critical', Tc=shard['Tc'], Pc=pc, n=N))
+            _run(ctx, dict(kind='ctor-calls', how='critical', Tc=shard['Tc'], Pc=pc))
     elif kind == 'reduced':
         for g, (a, b) in gases(tier).items():
             for tr, vr in itertools.product(TR, VRED):
@@ -439,6 +903,11 @@ def run_shard(shard, ctx):
         _run(ctx, dict(kind='defaults', eos='ideal'))
         for g, (a, b) in gases(tier).items():
             _run(ctx, dict(kind='defaults', eos='vdW', gas=g, a=a, b=b))
+    elif kind == 'history':
+        gs = gases(tier)
+        base, other = gs[shard['base']], gs[shard['other']]
+        for ops in _histories(tier, base, other, shard['first']):
+            _run(ctx, dict(kind='history', base=shard['base'], other=shard['other'], ops=ops))
     else:
         raise ValueError(kind)
 
@@ -446,8 +915,12 @@ def run_shard(shard, ctx):
 LEVEL_TEXT = ('Lattice walk over the real IdealGasEOS and vanDerWaalsEOS getters: every (gas, T, P, n, root) and '
               '(gas, T, V, n) state and every isotherm / isobar edge of the stated lattices, with substitute-back, '
               'root selection against an exact-arithmetic solution of the cubic, linearity in n, the ideal-gas '
-              'limit against the second virial coefficient, critical constants and the law of corresponding states.')
+              'limit against the second virial coefficient, critical constants and the law of corresponding states; '
+              'every bounded history of two or three objects built by every construction route with an edit in '
+              'between, each object judged against its own a, b; every calling convention (positional, omitted, '
+              'integer-typed arguments) of every getter against an independent reference of that getter.')
 LEVEL_NOTE = ('T, P, n, V/b, (a, b) and (Tc, Pc) come from finite lattices (8 real gases + the corners / a 4x4 grid of '
               'the stated (a, b) box); substitute-back of P is judged against the size of the cancelling terms; '
-              'states within 1e-6 of a double root are exempt from the root-count clauses only.')
+              'states within 1e-6 of a double root are exempt from the root-count clauses only; object histories '
+              'are 3 constructions + 1 edit long on 4 (quick) / 8 (thorough) pairs of real gases, queried at two states.')
 TECHNIQUE = 'lattice walk with state invariants and edge laws on the implementation, exact-arithmetic reference roots'
